@@ -57,7 +57,9 @@ EnvStep == /\ E.ev = "step"
                 [] OTHER -> UNCHANGED <<arrived, peerCtl>>
            /\ UNCHANGED <<scn, ctrlOut, shown, rejected, live, everLive, none, errd>> /\ Keep
 
-Wrote == /\ E.ev = "wrote" /\ E.sid = 3
+\* the server's control stream: a unidirectional stream of its own whose first byte was the stream type 0x00
+IsCtl == E.ev = "wrote" /\ (E.sid \div 2) % 2 = 1 /\ E.ut = 0
+Wrote == /\ IsCtl
          /\ ctrlOut' = ctrlOut \o E.bytes
          /\ UNCHANGED <<scn, arrived, peerCtl, shown, rejected, live, everLive, none, errd>>
          /\ IF Prop = "C08" /\ ~C08InvOf(ctrlOut \o E.bytes, shown, rejected) THEN Fail(<<"C08 invariant after GOAWAY written", l>>) ELSE Keep
@@ -98,7 +100,7 @@ Quiesce == /\ E.ev = "quiesce"
            /\ UNCHANGED <<scn, arrived, ctrlOut, peerCtl, shown, rejected, live, everLive, none, errd>>
 
 Other == /\ ~(E.ev \in {"reset", "step", "panic", "late", "livelock", "harness_panic", "quiesce"})
-         /\ ~(E.ev = "wrote" /\ E.sid = 3) /\ ~(E.ev = "ret" /\ E.api = "accept")
+         /\ ~IsCtl /\ ~(E.ev = "ret" /\ E.api = "accept")
          /\ ~(E.ev = "h3_reset" /\ E.code = H3_REQUEST_REJECTED)
          /\ ~(E.ev \in {"task_start", "task_end"} /\ TaskSid(E.task) # -1)
          /\ UNCHANGED <<scn, arrived, ctrlOut, peerCtl, shown, rejected, live, everLive, none, errd>> /\ Keep
